@@ -360,6 +360,16 @@ func init() {
 			posLists = append(posLists, l)
 		}
 		posLists = append(posLists, []int32{0, 65535, 65536, 131071, 200000}, []int32{1 << 20})
+		// long hole-free runs 0..k-1 and long runs with one hole (whole-word fast paths)
+		for _, k := range []int{32768, 32769, 40000, 65537} {
+			run := make([]int32, 0, k)
+			for i := 0; i < k; i++ {
+				run = append(run, int32(i))
+			}
+			posLists = append(posLists, run)
+			holed := append(append([]int32(nil), run[:k/2]...), run[k/2+1:]...)
+			posLists = append(posLists, holed)
+		}
 		for _, ps := range posLists {
 			s := showI32s(ps)
 			last := int32(-1)
@@ -367,9 +377,24 @@ func init() {
 				last = ps[len(ps)-1]
 			}
 			g.emit("of %s none", s)
+			if len(ps) > 5000 {
+				g.emit("of %s %d", s, last+65)
+				continue
+			}
 			for _, n := range []int32{-5, -1, 0, 1, last, last + 1, last + 2, last + 63, last + 64, last + 65, last + 200} {
 				g.emit("of %s %d", s, n)
 			}
+		}
+		// big bitmaps, odd and even word counts, a set bit in the last word
+		for _, l := range []int{1023, 1024, 1025, 2049} {
+			ws := make([]uint64, l)
+			for i := range ws {
+				if i%7 == 0 {
+					ws[i] = g.word()
+				}
+			}
+			ws[l-1] = 1<<63 | 1<<uint(g.intn(63))
+			g.emit("toarray %s", showU64s(ws))
 		}
 		for rep := 0; rep < g.n(60, 400); rep++ {
 			ws := g.words(g.intn(6), rep%2 == 0)
@@ -538,6 +563,9 @@ func init() {
 		// ... and crossed while more than 1024 words are still live
 		g.emit("tb 0 65536 s134417,s140000,f0:65536,o,h134417,g134417,h140000,h65536,f65536:65600,o,h134417,c,o,h140000")
 		if g.thorough() {
+			// more than 4096 complete words behind word 0, then word 0 is completed: one Set must move Offset
+			// past all of them
+			g.emit("tb 0 65536 F64:262784,o,h64,h262783,f0:63,o,s63,o,h262783,c,o,s262784,o")
 			g.emit("tb 0 65536 F0:65664,o,h0,h65663,c,o,f65664:131300,o,c,o")
 			g.emit("tb 128 65536 s200000,F128:65664,o,h200000,g199999,f65664:131200,o,h200000,c,o")
 		}
